@@ -128,6 +128,7 @@ class Run(ExtraOps):
         self.mat_entries = {}
         self.ill_routes = set()
         self.in_recovery = False
+        self.shadow = False
         self.shared_ops = {}
         self.payload_content = {}
         self._keep_nodes = []
@@ -142,6 +143,36 @@ class Run(ExtraOps):
         uuid.uuid4 = self._uuid_orig
         MON.active = False
         self.w.close()
+
+    def nofault_variant_shows(self, kind, op_index):
+        """Re-execute this run's scenario up to op_index with every fault removed (a nested, isolated run) and
+        report whether the same kind of violation appears at the same op: used to tell an ordinary wrong result
+        from one that only exists because an earlier evaluation failed half-way."""
+        import copy
+
+        sc = copy.deepcopy(self.sc)
+        sc["ops"] = sc["ops"][: op_index + 1]
+
+        def strip(o):
+            o.pop("faults", None)
+            if isinstance(o.get("op"), dict):
+                strip(o["op"])
+
+        for o in sc["ops"]:
+            strip(o)
+        saved = (MON.active, MON.commutes, MON.merges, MON.events, dict(_MEMO), uuid.uuid4)
+        r = Run(sc, self.profile, armed=self.armed)
+        r.shadow = True
+        try:
+            r.execute()
+        except Exception:  # noqa
+            return False
+        finally:
+            MON.active, MON.commutes, MON.merges, MON.events = saved[:4]
+            _MEMO.clear()
+            _MEMO.update(saved[4])
+            uuid.uuid4 = saved[5]
+        return any(v["kind"] == kind and v["op_index"] == op_index for v in r.violations) or bool(r.known_hits)
 
     def ref(self, r):
         if not self.pool:
@@ -767,6 +798,30 @@ class Run(ExtraOps):
         if t is None:
             return
         self.factory(op, [t], lambda: SimMarker(target=t.rel), lambda rel: t.mv.derive(hist=("mark", t.mv.hist)))
+
+    def op_custom(self, op):
+        """A user-defined unary operation (RowFilter / Reordering subclass) applied through UnaryOperation.apply."""
+        from .world import SimAtLeast, SimOrderBy, SimStride
+
+        t = self.ref(op["t"])
+        if t is None:
+            return
+        kind = op["op"]
+        if M.is_sql(t.mv.engine) or op.get("pe") == "sql":
+            return self.alias(op, t, "illtyped")
+        if kind == "orderby" and op["col"] not in t.mv.cols:
+            return self.alias(op, t, "illtyped")
+        tags = self.w.tags
+
+        def make():
+            if kind == "atleast":
+                return SimAtLeast(op["n"])
+            if kind == "stride":
+                return SimStride(op["n"], bool(op.get("cd", True)))
+            return SimOrderBy(tags[op["col"]], bool(op.get("desc")))
+
+        self.factory(op, [t], lambda: make().apply(t.rel, **self.flags(op)),
+                     lambda rel: self._umodel(t, op, rel, lambda v: M.m_custom(v, op)))
 
     def op_xfer(self, op):
         t = self.ref(op["t"])
